@@ -34,8 +34,19 @@ Table == PrintT(ToJson(<<1212121, [n \in 1..6 |-> MinCp(n)], [n \in 1..6 |-> Lea
 Leads == {192, 223, 224, 239, 240, 247, 248, 251, 252, 253, 254, 255}
 LongStrs == {<<ld>> \o [i \in 1..k |-> c] \o tl : ld \in Leads, k \in 0..9, c \in {128, 191}, tl \in {<<>>, <<65>>, <<0>>}}
 EmitLong == \A s \in LongStrs : PrintT(ToJson(<<2222222, Len(s), s>>))
+\* long mixed texts: up to three units (ASCII, NUL, two- and three-byte characters, a stray continuation byte, 0xFE)
+\* between a short head and a tail of at least seven more bytes - the counter must stop at the first NUL or
+\* undecodable byte however much text follows
+Units == {<<65>>, <<0>>, <<195, 169>>, <<226, 130, 172>>, <<128>>, <<254>>, <<240, 159>>}
+Heads == {<<>>, <<66>>, <<195, 169>>}
+Tails == {<<67, 68, 69, 70, 71, 72, 73>>, <<67, 68, 69, 70, 71, 72, 195, 169, 74>>}
+Mixed == {h \o u1 \o t : h \in Heads, u1 \in Units, t \in Tails}
+         \cup {h \o u1 \o u2 \o t : h \in Heads, u1 \in Units, u2 \in Units, t \in Tails}
+         \cup {h \o u1 \o u2 \o u3 \o t : h \in Heads, u1 \in Units, u2 \in Units, u3 \in Units, t \in Tails}
+EmitMixed == \A s \in Mixed : PrintT(ToJson(<<2222222, Len(s), s>>))
 ASSUME RoundTrip
 ASSUME EmitLong
+ASSUME EmitMixed
 ASSUME EmitCps
 ASSUME Table
 =============================================================================
